@@ -42,7 +42,7 @@ def gen_cases(tier, seed):
     pmax, L = (4, 4) if thorough else (3, 2)
     cases = []
     for n in range(1, pmax + 1):
-        cases.append({"runner": "ppr", "num": n, "L": L})
+        cases.append({"runner": "ppr", "num": n, "L": L if n <= 3 else L - 1})   # 16^4 sequences for one configuration would dominate the wall time
     for mn, mx in [(a, b) for b in range(1, pmax + 1) for a in range(1, b + 1)]:
         for enforce in (True, False):
             for queue in (0, 1, mx + 2):
